@@ -96,6 +96,38 @@ func (g *Gen) specType(name string) (types.Type, string) {
 	if strings.HasPrefix(name, "(") {
 		return nil, name
 	}
+	if strings.HasPrefix(name, "seq:") {
+		et, es := g.specType(strings.TrimPrefix(name, "seq:"))
+		sort := "(Array Int " + es + ")"
+		if et != nil {
+			if g.seqElem == nil {
+				g.seqElem = map[string]types.Type{}
+			}
+			g.seqElem[sort] = et
+		}
+		return nil, sort
+	}
+	if i := strings.Index(name, "."); i > 0 {
+		// qualified type name pkg.Type
+		for _, p := range g.E.prog.AllPackages() {
+			if p.Pkg.Name() == name[:i] {
+				if tn, ok := p.Pkg.Scope().Lookup(name[i+1:]).(*types.TypeName); ok {
+					return tn.Type(), g.sortOf(tn.Type())
+				}
+			}
+		}
+	}
+	if strings.HasPrefix(name, "*") {
+		t, _ := g.specType(name[1:])
+		if t != nil {
+			return types.NewPointer(t), "Int"
+		}
+	}
+	for _, p := range g.E.pkgs {
+		if tn, ok := p.Types.Scope().Lookup(name).(*types.TypeName); ok {
+			return tn.Type(), g.sortOf(tn.Type())
+		}
+	}
 	panic(evalErr("unknown contract type " + name))
 }
 
@@ -389,6 +421,9 @@ func (g *Gen) evalIdent(env *Env, name string) Val {
 	}
 	// package-level constant or variable
 	pkgs := []*types.Package{env.pkg}
+	if env.pkg != nil {
+		pkgs = append(pkgs, env.pkg.Imports()...)
+	}
 	for _, p := range pkgs {
 		if p == nil {
 			continue
@@ -559,6 +594,9 @@ func (g *Gen) evalIndex(env *Env, x *EIndex) Val {
 		// spec array: element sort is the last component
 		es := arrayElemSort(base.Sort)
 		v := Val{Sort: es, S: fmt.Sprintf("(select %s %s)", base.S, idx.S)}
+		if et, ok := g.seqElem[base.Sort]; ok {
+			return Val{T: et, S: v.S}
+		}
 		if es == g.sortOf(types.Typ[types.Uint8]) && strings.Contains(base.Sort, g.idxSort()) {
 			v.T, v.Sort = types.Typ[types.Uint8], ""
 		}
@@ -731,6 +769,12 @@ func (g *Gen) evalCall(env *Env, x *ECall) Val {
 			return Val{T: a.T, S: fmt.Sprintf("(ite %s %s %s)", c.S, a.S, b.S)}
 		}
 		return Val{T: a.T, S: fmt.Sprintf("(ite %s %s %s)", c.S, b.S, a.S)}
+	case "zerovalue":
+		t, sort := g.specType(x.Args[0].(*EStr).S)
+		if t == nil {
+			panic(evalErr("zerovalue of a non-Go type " + sort))
+		}
+		return Val{T: t, S: g.zero(t)}
 	case "typeis":
 		// typeis(x, "pkg.Type")
 		v := g.eval(env, x.Args[0])
